@@ -10,13 +10,23 @@ git -C /repo worktree add -q --detach $wt HEAD || exit 3
 cd $wt
 loc=$(python3 -c "import json;print(json.load(open('/verif/seeded/$id/meta.json')).get('demo_location','tests/seeded_demo.rs'))")
 case "$loc" in *tests/seeded_demo.rs*) loc=tests/seeded_demo.rs;; esac
-cp /verif/seeded/$id/demo.rs $wt/$loc 2>/dev/null || cp /verif/seeded/$id/demo.rs $wt/tests/seeded_demo.rs
-echo "--- without patch: demo"
-cargo test --offline --test seeded_demo 2>&1 | grep -E "^test result|test .* (ok|FAILED)" | tail -5
+appendto=$(python3 -c "
+import json,re
+l=json.load(open('/verif/seeded/$id/meta.json')).get('demo_location','')
+m=re.search(r'END of .?(src/[\\w/]+\\.rs)', l)
+print(m.group(1) if m else '')")
 git apply /verif/seeded/$id/patch.diff || { echo "PATCH DOES NOT APPLY"; exit 3; }
-echo "--- with patch: demo"
-cargo test --offline --test seeded_demo 2>&1 | grep -E "^test result|test .* (ok|FAILED)" | tail -5
 echo "--- with patch: baseline suite"
-mv tests/seeded_demo.rs /tmp/sv/seeded_demo_$id.rs
 cargo test --workspace --no-fail-fast --offline 2>&1 | grep -E "^test result|FAILED" | tail -8
+git apply -R /verif/seeded/$id/patch.diff
+if [ -n "$appendto" ]; then
+  cat /verif/seeded/$id/demo.rs >> $wt/$appendto; runit="cargo test --offline --lib seeded_demo"
+else
+  cp /verif/seeded/$id/demo.rs $wt/tests/seeded_demo.rs; runit="cargo test --offline --test seeded_demo"
+fi
+echo "--- without patch: demo"
+$runit 2>&1 | grep -E "^test result|test .* (ok|FAILED)" | grep -v "0 passed; 0 failed" | tail -5
+git apply /verif/seeded/$id/patch.diff || { echo "PATCH DOES NOT APPLY (with demo)"; exit 3; }
+echo "--- with patch: demo"
+$runit 2>&1 | grep -E "^test result|test .* (ok|FAILED)" | grep -v "0 passed; 0 failed" | tail -5
 cd /; git -C /repo worktree remove --force $wt
